@@ -67,6 +67,7 @@ type ssoP struct {
 	B64       string // "" ok | bad-alphabet | bad-padding
 	B64Wrap   string // base64 line structure (RFC 2045 allows line breaks; POST binding only): "" one line | 76 | 64crlf
 	Flate     string // DEFLATE block structure on the Redirect binding (msg.DeflateKind): "" | stored | huffman | fast | flushed | chunks
+	HTTP      string // HTTP-level shape of the same request (world.HTTPShapes)
 	CType     string // Content-Type spelling of a POST: "" plain | charset | mixed-case | charset-quoted
 	Deflate   string // "" ok | truncated
 	XML       string // "" ok | ill-formed | root-logout | root-response | wrong-ns | empty-doc
@@ -663,6 +664,7 @@ func ssoBuild(p ssoP) (*world.World, *http.Request, *ssoTruth) {
 	default:
 		panic("ssoBuild: transport " + transport)
 	}
+	req = world.Shape(req, p.HTTP)
 	// honest signature bookkeeping
 	if p.Sign != "" && p.Forge == "" && p.Signer == "" && p.XML == "" && p.B64 == "" && p.Deflate == "" && p.Special == "" {
 		t.HonestlySigned, t.SigIntact = true, true
@@ -884,6 +886,8 @@ func (p *ssoP) set(name, val string) {
 		p.Flate = val
 	case "CType":
 		p.CType = val
+	case "HTTP":
+		p.HTTP = val
 	case "Frac":
 		p.Frac = val
 	case "Transport":
